@@ -42,6 +42,8 @@ fn run_vm(case: &Value) -> Value {
         Ok(Ok(vm)) => vm,
     };
     let io = vm.io().map(|io| vec![io.input, io.output]);
+    // a source without a dsp function (library module) is compiled but not run
+    let n = if io.is_none() { 0 } else { n };
     let mut samples = vec![];
     let mut swaps = vec![];
     let skel0 = vm.skeleton();
@@ -93,6 +95,7 @@ fn run_wasm(case: &Value) -> Value {
         Ok(Ok(w)) => w,
     };
     let io = w.io.map(|io| vec![io.input, io.output]);
+    let n = if io.is_none() { 0 } else { n };
     let skel0 = w.skeleton();
     let mut samples = vec![];
     let mut swaps = vec![];
